@@ -38,13 +38,13 @@
         //@ before (card_type,bytes)=<
         //@ tag tags.no_second_dispatch.card_type C13
             proof { assert(!seen.contains(65u16)); seen = seen.insert(65u16) ; }
-        //@ before returnErr(zvt_builder::ZVTError::DuplicateTag(zvt_builder::Tag(65u16)
+        //@ before returnErr(zvt_builder::ZVTError::DuplicateTag(
         //@ tag tags.duplicate_error_is_true.card_type C13
             proof { assert(seen.contains(65u16)) ; }
         //@ before (application_id,bytes)=<
         //@ tag tags.no_second_dispatch.application_id C13
             proof { assert(!seen.contains(67u16)); seen = seen.insert(67u16) ; }
-        //@ before returnErr(zvt_builder::ZVTError::DuplicateTag(zvt_builder::Tag(67u16)
+        //@ before returnErr(zvt_builder::ZVTError::DuplicateTag(
         //@ tag tags.duplicate_error_is_true.application_id C13
             proof { assert(seen.contains(67u16)) ; }
         //@ before letmutas_vec
@@ -113,7 +113,7 @@
         //@ after (subs,bytes)=<
         //@ tag tags.stop C13
             proof { if curr_len == bytes@.len() { crate::frame::lemma_tail_same_len(bytes@, b_pre); } }
-        //@ before returnErr(zvt_builder::ZVTError::DuplicateTag(zvt_builder::Tag(96u16)
+        //@ before returnErr(zvt_builder::ZVTError::DuplicateTag(
         //@ tag tags.duplicate_error_is_true.subs C13
             proof { assert(seen.contains(96u16)) ; }
         //@ before letmutas_vec
@@ -178,49 +178,49 @@
         //@ before (uuid,bytes)=<
         //@ tag tags.no_second_dispatch.uuid C13
             proof { assert(!seen.contains(76u16)); seen = seen.insert(76u16) ; }
-        //@ before returnErr(zvt_builder::ZVTError::DuplicateTag(zvt_builder::Tag(76u16)
+        //@ before returnErr(zvt_builder::ZVTError::DuplicateTag(
         //@ tag tags.duplicate_error_is_true.uuid C13
             proof { assert(seen.contains(76u16)) ; }
         //@ before (maximum_pre_autorisation,bytes)=<
         //@ tag tags.no_second_dispatch.maximum_pre_autorisation C13
             proof { assert(!seen.contains(7947u16)); seen = seen.insert(7947u16) ; }
-        //@ before returnErr(zvt_builder::ZVTError::DuplicateTag(zvt_builder::Tag(7947u16)
+        //@ before returnErr(zvt_builder::ZVTError::DuplicateTag(
         //@ tag tags.duplicate_error_is_true.maximum_pre_autorisation C13
             proof { assert(seen.contains(7947u16)) ; }
         //@ before (card_identification_item,bytes)=<
         //@ tag tags.no_second_dispatch.card_identification_item C13
             proof { assert(!seen.contains(7956u16)); seen = seen.insert(7956u16) ; }
-        //@ before returnErr(zvt_builder::ZVTError::DuplicateTag(zvt_builder::Tag(7956u16)
+        //@ before returnErr(zvt_builder::ZVTError::DuplicateTag(
         //@ tag tags.duplicate_error_is_true.card_identification_item C13
             proof { assert(seen.contains(7956u16)) ; }
         //@ before (ats,bytes)=<
         //@ tag tags.no_second_dispatch.ats C13
             proof { assert(!seen.contains(8005u16)); seen = seen.insert(8005u16) ; }
-        //@ before returnErr(zvt_builder::ZVTError::DuplicateTag(zvt_builder::Tag(8005u16)
+        //@ before returnErr(zvt_builder::ZVTError::DuplicateTag(
         //@ tag tags.duplicate_error_is_true.ats C13
             proof { assert(seen.contains(8005u16)) ; }
         //@ before (card_type,bytes)=<
         //@ tag tags.no_second_dispatch.card_type C13
             proof { assert(!seen.contains(8012u16)); seen = seen.insert(8012u16) ; }
-        //@ before returnErr(zvt_builder::ZVTError::DuplicateTag(zvt_builder::Tag(8012u16)
+        //@ before returnErr(zvt_builder::ZVTError::DuplicateTag(
         //@ tag tags.duplicate_error_is_true.card_type C13
             proof { assert(seen.contains(8012u16)) ; }
         //@ before (sub_type,bytes)=<
         //@ tag tags.no_second_dispatch.sub_type C13
             proof { assert(!seen.contains(8013u16)); seen = seen.insert(8013u16) ; }
-        //@ before returnErr(zvt_builder::ZVTError::DuplicateTag(zvt_builder::Tag(8013u16)
+        //@ before returnErr(zvt_builder::ZVTError::DuplicateTag(
         //@ tag tags.duplicate_error_is_true.sub_type C13
             proof { assert(seen.contains(8013u16)) ; }
         //@ before (atqa,bytes)=<
         //@ tag tags.no_second_dispatch.atqa C13
             proof { assert(!seen.contains(8015u16)); seen = seen.insert(8015u16) ; }
-        //@ before returnErr(zvt_builder::ZVTError::DuplicateTag(zvt_builder::Tag(8015u16)
+        //@ before returnErr(zvt_builder::ZVTError::DuplicateTag(
         //@ tag tags.duplicate_error_is_true.atqa C13
             proof { assert(seen.contains(8015u16)) ; }
         //@ before (sak,bytes)=<
         //@ tag tags.no_second_dispatch.sak C13
             proof { assert(!seen.contains(8016u16)); seen = seen.insert(8016u16) ; }
-        //@ before returnErr(zvt_builder::ZVTError::DuplicateTag(zvt_builder::Tag(8016u16)
+        //@ before returnErr(zvt_builder::ZVTError::DuplicateTag(
         //@ tag tags.duplicate_error_is_true.sak C13
             proof { assert(seen.contains(8016u16)) ; }
         //@ before (subs,bytes)=<
@@ -230,13 +230,13 @@
         //@ after (subs,bytes)=<
         //@ tag tags.stop C13
             proof { if curr_len == bytes@.len() { crate::frame::lemma_tail_same_len(bytes@, b_pre); } }
-        //@ before returnErr(zvt_builder::ZVTError::DuplicateTag(zvt_builder::Tag(96u16)
+        //@ before returnErr(zvt_builder::ZVTError::DuplicateTag(
         //@ tag tags.duplicate_error_is_true.subs C13
             proof { assert(seen.contains(96u16)) ; }
         //@ before (subs_on_card,bytes)=<
         //@ tag tags.no_second_dispatch.subs_on_card C13
             proof { assert(!seen.contains(98u16)); seen = seen.insert(98u16) ; }
-        //@ before returnErr(zvt_builder::ZVTError::DuplicateTag(zvt_builder::Tag(98u16)
+        //@ before returnErr(zvt_builder::ZVTError::DuplicateTag(
         //@ tag tags.duplicate_error_is_true.subs_on_card C13
             proof { assert(seen.contains(98u16)) ; }
         //@ before letmutas_vec
@@ -301,7 +301,7 @@
         //@ before (enable_extended_contactless_card_detection,bytes)=<
         //@ tag tags.no_second_dispatch.enable_extended_contactless_card_detection C13
             proof { assert(!seen.contains(8178u16)); seen = seen.insert(8178u16) ; }
-        //@ before returnErr(zvt_builder::ZVTError::DuplicateTag(zvt_builder::Tag(8178u16)
+        //@ before returnErr(zvt_builder::ZVTError::DuplicateTag(
         //@ tag tags.duplicate_error_is_true.enable_extended_contactless_card_detection C13
             proof { assert(seen.contains(8178u16)) ; }
         //@ before letmutas_vec
@@ -366,25 +366,25 @@
         //@ before (device_name,bytes)=<
         //@ tag tags.no_second_dispatch.device_name C13
             proof { assert(!seen.contains(8000u16)); seen = seen.insert(8000u16) ; }
-        //@ before returnErr(zvt_builder::ZVTError::DuplicateTag(zvt_builder::Tag(8000u16)
+        //@ before returnErr(zvt_builder::ZVTError::DuplicateTag(
         //@ tag tags.duplicate_error_is_true.device_name C13
             proof { assert(seen.contains(8000u16)) ; }
         //@ before (software_version,bytes)=<
         //@ tag tags.no_second_dispatch.software_version C13
             proof { assert(!seen.contains(8001u16)); seen = seen.insert(8001u16) ; }
-        //@ before returnErr(zvt_builder::ZVTError::DuplicateTag(zvt_builder::Tag(8001u16)
+        //@ before returnErr(zvt_builder::ZVTError::DuplicateTag(
         //@ tag tags.duplicate_error_is_true.software_version C13
             proof { assert(seen.contains(8001u16)) ; }
         //@ before (serial_number,bytes)=<
         //@ tag tags.no_second_dispatch.serial_number C13
             proof { assert(!seen.contains(8002u16)); seen = seen.insert(8002u16) ; }
-        //@ before returnErr(zvt_builder::ZVTError::DuplicateTag(zvt_builder::Tag(8002u16)
+        //@ before returnErr(zvt_builder::ZVTError::DuplicateTag(
         //@ tag tags.duplicate_error_is_true.serial_number C13
             proof { assert(seen.contains(8002u16)) ; }
         //@ before (device_state,bytes)=<
         //@ tag tags.no_second_dispatch.device_state C13
             proof { assert(!seen.contains(8003u16)); seen = seen.insert(8003u16) ; }
-        //@ before returnErr(zvt_builder::ZVTError::DuplicateTag(zvt_builder::Tag(8003u16)
+        //@ before returnErr(zvt_builder::ZVTError::DuplicateTag(
         //@ tag tags.duplicate_error_is_true.device_state C13
             proof { assert(seen.contains(8003u16)) ; }
         //@ before letmutas_vec
@@ -449,19 +449,19 @@
         //@ before (terminal_id,bytes)=<
         //@ tag tags.no_second_dispatch.terminal_id C13
             proof { assert(!seen.contains(8004u16)); seen = seen.insert(8004u16) ; }
-        //@ before returnErr(zvt_builder::ZVTError::DuplicateTag(zvt_builder::Tag(8004u16)
+        //@ before returnErr(zvt_builder::ZVTError::DuplicateTag(
         //@ tag tags.duplicate_error_is_true.terminal_id C13
             proof { assert(seen.contains(8004u16)) ; }
         //@ before (device_information,bytes)=<
         //@ tag tags.no_second_dispatch.device_information C13
             proof { assert(!seen.contains(228u16)); seen = seen.insert(228u16) ; }
-        //@ before returnErr(zvt_builder::ZVTError::DuplicateTag(zvt_builder::Tag(228u16)
+        //@ before returnErr(zvt_builder::ZVTError::DuplicateTag(
         //@ tag tags.duplicate_error_is_true.device_information C13
             proof { assert(seen.contains(228u16)) ; }
         //@ before (date_time,bytes)=<
         //@ tag tags.no_second_dispatch.date_time C13
             proof { assert(!seen.contains(52u16)); seen = seen.insert(52u16) ; }
-        //@ before returnErr(zvt_builder::ZVTError::DuplicateTag(zvt_builder::Tag(52u16)
+        //@ before returnErr(zvt_builder::ZVTError::DuplicateTag(
         //@ tag tags.duplicate_error_is_true.date_time C13
             proof { assert(seen.contains(52u16)) ; }
         //@ before letmutas_vec
@@ -526,13 +526,13 @@
         //@ before (extended_error_code,bytes)=<
         //@ tag tags.no_second_dispatch.extended_error_code C13
             proof { assert(!seen.contains(7958u16)); seen = seen.insert(7958u16) ; }
-        //@ before returnErr(zvt_builder::ZVTError::DuplicateTag(zvt_builder::Tag(7958u16)
+        //@ before returnErr(zvt_builder::ZVTError::DuplicateTag(
         //@ tag tags.duplicate_error_is_true.extended_error_code C13
             proof { assert(seen.contains(7958u16)) ; }
         //@ before (extended_error_text,bytes)=<
         //@ tag tags.no_second_dispatch.extended_error_text C13
             proof { assert(!seen.contains(7959u16)); seen = seen.insert(7959u16) ; }
-        //@ before returnErr(zvt_builder::ZVTError::DuplicateTag(zvt_builder::Tag(7959u16)
+        //@ before returnErr(zvt_builder::ZVTError::DuplicateTag(
         //@ tag tags.duplicate_error_is_true.extended_error_text C13
             proof { assert(seen.contains(7959u16)) ; }
         //@ before letmutas_vec
@@ -597,13 +597,13 @@
         //@ before (bmp_prefix,bytes)=<
         //@ tag tags.no_second_dispatch.bmp_prefix C13
             proof { assert(!seen.contains(8034u16)); seen = seen.insert(8034u16) ; }
-        //@ before returnErr(zvt_builder::ZVTError::DuplicateTag(zvt_builder::Tag(8034u16)
+        //@ before returnErr(zvt_builder::ZVTError::DuplicateTag(
         //@ tag tags.duplicate_error_is_true.bmp_prefix C13
             proof { assert(seen.contains(8034u16)) ; }
         //@ before (bmp_data,bytes)=<
         //@ tag tags.no_second_dispatch.bmp_data C13
             proof { assert(!seen.contains(8035u16)); seen = seen.insert(8035u16) ; }
-        //@ before returnErr(zvt_builder::ZVTError::DuplicateTag(zvt_builder::Tag(8035u16)
+        //@ before returnErr(zvt_builder::ZVTError::DuplicateTag(
         //@ tag tags.duplicate_error_is_true.bmp_data C13
             proof { assert(seen.contains(8035u16)) ; }
         //@ before letmutas_vec
@@ -668,7 +668,7 @@
         //@ before (bmp_data,bytes)=<
         //@ tag tags.no_second_dispatch.bmp_data C13
             proof { assert(!seen.contains(233u16)); seen = seen.insert(233u16) ; }
-        //@ before returnErr(zvt_builder::ZVTError::DuplicateTag(zvt_builder::Tag(233u16)
+        //@ before returnErr(zvt_builder::ZVTError::DuplicateTag(
         //@ tag tags.duplicate_error_is_true.bmp_data C13
             proof { assert(seen.contains(233u16)) ; }
         //@ before letmutas_vec
@@ -733,7 +733,7 @@
         //@ before (bmp_data,bytes)=<
         //@ tag tags.no_second_dispatch.bmp_data C13
             proof { assert(!seen.contains(233u16)); seen = seen.insert(233u16) ; }
-        //@ before returnErr(zvt_builder::ZVTError::DuplicateTag(zvt_builder::Tag(233u16)
+        //@ before returnErr(zvt_builder::ZVTError::DuplicateTag(
         //@ tag tags.duplicate_error_is_true.bmp_data C13
             proof { assert(seen.contains(233u16)) ; }
         //@ before letmutas_vec
@@ -798,7 +798,7 @@
         //@ before (diagnosis_type,bytes)=<
         //@ tag tags.no_second_dispatch.diagnosis_type C13
             proof { assert(!seen.contains(27u16)); seen = seen.insert(27u16) ; }
-        //@ before returnErr(zvt_builder::ZVTError::DuplicateTag(zvt_builder::Tag(27u16)
+        //@ before returnErr(zvt_builder::ZVTError::DuplicateTag(
         //@ tag tags.duplicate_error_is_true.diagnosis_type C13
             proof { assert(seen.contains(27u16)) ; }
         //@ before letmutas_vec
@@ -863,13 +863,13 @@
         //@ before (card_reading_control,bytes)=<
         //@ tag tags.no_second_dispatch.card_reading_control C13
             proof { assert(!seen.contains(7957u16)); seen = seen.insert(7957u16) ; }
-        //@ before returnErr(zvt_builder::ZVTError::DuplicateTag(zvt_builder::Tag(7957u16)
+        //@ before returnErr(zvt_builder::ZVTError::DuplicateTag(
         //@ tag tags.duplicate_error_is_true.card_reading_control C13
             proof { assert(seen.contains(7957u16)) ; }
         //@ before (card_type,bytes)=<
         //@ tag tags.no_second_dispatch.card_type C13
             proof { assert(!seen.contains(8032u16)); seen = seen.insert(8032u16) ; }
-        //@ before returnErr(zvt_builder::ZVTError::DuplicateTag(zvt_builder::Tag(8032u16)
+        //@ before returnErr(zvt_builder::ZVTError::DuplicateTag(
         //@ tag tags.duplicate_error_is_true.card_type C13
             proof { assert(seen.contains(8032u16)) ; }
         //@ before letmutas_vec
@@ -934,7 +934,7 @@
         //@ before (line,bytes)=<
         //@ tag tags.no_second_dispatch.line C13
             proof { assert(!seen.contains(7u16)); seen = seen.insert(7u16) ; }
-        //@ before returnErr(zvt_builder::ZVTError::DuplicateTag(zvt_builder::Tag(7u16)
+        //@ before returnErr(zvt_builder::ZVTError::DuplicateTag(
         //@ tag tags.duplicate_error_is_true.line C13
             proof { assert(seen.contains(7u16)) ; }
         //@ before letmutas_vec
@@ -1003,13 +1003,13 @@
         //@ after (lines,bytes)=<
         //@ tag tags.stop C13
             proof { if curr_len == bytes@.len() { crate::frame::lemma_tail_same_len(bytes@, b_pre); } }
-        //@ before returnErr(zvt_builder::ZVTError::DuplicateTag(zvt_builder::Tag(7u16)
+        //@ before returnErr(zvt_builder::ZVTError::DuplicateTag(
         //@ tag tags.duplicate_error_is_true.lines C13
             proof { assert(seen.contains(7u16)) ; }
         //@ before (eol,bytes)=<
         //@ tag tags.no_second_dispatch.eol C13
             proof { assert(!seen.contains(9u16)); seen = seen.insert(9u16) ; }
-        //@ before returnErr(zvt_builder::ZVTError::DuplicateTag(zvt_builder::Tag(9u16)
+        //@ before returnErr(zvt_builder::ZVTError::DuplicateTag(
         //@ tag tags.duplicate_error_is_true.eol C13
             proof { assert(seen.contains(9u16)) ; }
         //@ before letmutas_vec
@@ -1074,13 +1074,13 @@
         //@ before (receipt_type,bytes)=<
         //@ tag tags.no_second_dispatch.receipt_type C13
             proof { assert(!seen.contains(7943u16)); seen = seen.insert(7943u16) ; }
-        //@ before returnErr(zvt_builder::ZVTError::DuplicateTag(zvt_builder::Tag(7943u16)
+        //@ before returnErr(zvt_builder::ZVTError::DuplicateTag(
         //@ tag tags.duplicate_error_is_true.receipt_type C13
             proof { assert(seen.contains(7943u16)) ; }
         //@ before (lines,bytes)=<
         //@ tag tags.no_second_dispatch.lines C13
             proof { assert(!seen.contains(37u16)); seen = seen.insert(37u16) ; }
-        //@ before returnErr(zvt_builder::ZVTError::DuplicateTag(zvt_builder::Tag(37u16)
+        //@ before returnErr(zvt_builder::ZVTError::DuplicateTag(
         //@ tag tags.duplicate_error_is_true.lines C13
             proof { assert(seen.contains(37u16)) ; }
         //@ before letmutas_vec
@@ -1145,7 +1145,7 @@
         //@ before (max_len_adpu,bytes)=<
         //@ tag tags.no_second_dispatch.max_len_adpu C13
             proof { assert(!seen.contains(26u16)); seen = seen.insert(26u16) ; }
-        //@ before returnErr(zvt_builder::ZVTError::DuplicateTag(zvt_builder::Tag(26u16)
+        //@ before returnErr(zvt_builder::ZVTError::DuplicateTag(
         //@ tag tags.duplicate_error_is_true.max_len_adpu C13
             proof { assert(seen.contains(26u16)) ; }
         //@ before letmutas_vec
